@@ -74,4 +74,11 @@ inductive CurveField
   | p | a | b | gx | gy | n | h
   deriving DecidableEq, Repr, Inhabited
 
+/-- what `WordLists.load_lang` publishes, one assignment each. -/
+inductive Pub
+  | index      -- self._index[lang] = {word: i …}
+  | words      -- self._wordlist[lang] = words
+  | count      -- self._language_length[lang] = len(words)   (non-zero count = "already loaded")
+  deriving DecidableEq, Repr, Inhabited
+
 end Btc.C20
